@@ -10,7 +10,10 @@ import (
 	"os/exec"
 	"path/filepath"
 	"regexp"
+	"runtime"
+	"slices"
 	"sort"
+	"strconv"
 	"strings"
 	"sync"
 	"testing"
@@ -420,13 +423,220 @@ func c34Cores() []c34Core {
 				func() { a.deliverOn(1, r.udp, fwd[0].Data) },
 			}, observe
 		}},
+		{c34CoreMixedRx, 3, func(t testing.TB, seed int64) ([]func(), func()) {
+			// BOTH KINDS of traffic that a tunnel to a relay node carries, received at the same time. The tunnel a<->r has one
+			// counter space and one replay window, fed by two receive paths: packets that r itself sends to a (Test / LightHouse
+			// / Control ...: ConnectionState.Decrypt) and relay frames that r forwards on behalf of b (Message/MessageRelay:
+			// ConnectionState.VerifyRelay, then the inner packet on the a<->b tunnel). Three rx routines of a receive a Test
+			// request from r and two relay frames carrying b's packets, all on r's tunnel.
+			net, a, r, b := c34RelayNet(t, seed, 3, 1, 1)
+			if !net.establish(a, b, "s1") || !net.establish(b, a, "s2") {
+				t.Fatalf("establish through the relay")
+			}
+			net.flushFIFO(50)
+			direct := c34To(c34Capture(net, func() {
+				r.f.SendMessageToVpnAddr(header.Test, header.TestRequest, a.vpnIP, []byte(""), r.nb, make([]byte, mtu))
+				r.settle()
+			}), a.udp)
+			var frames []vpkt
+			for _, tag := range []string{"RELAYED-ONE", "RELAYED-TWO"} {
+				toR := c34To(c34Capture(net, func() { b.tunSend(data(b, a, tag)) }), r.udp)
+				if len(toR) != 1 {
+					t.Fatalf("%s setup: b->r %v", c34CoreMixedRx, toR)
+				}
+				frames = append(frames, c34Relayed(c34To(c34Capture(net, func() { r.deliver(b.udp, toR[0].Data) }), a.udp))...)
+			}
+			hiR := a.f.hostMap.QueryVpnAddr(r.vpnIP)
+			var dh header.H
+			if len(direct) != 1 || dh.Parse(direct[0].Data) != nil || dh.Type != header.Test || len(frames) != 2 || hiR == nil {
+				t.Fatalf("%s setup: direct=%v frames=%v tunnel to r=%v", c34CoreMixedRx, direct, frames, hiR != nil)
+			}
+			// all three datagrams belong to a's tunnel to r (its local index) and carry three different counters of it
+			win := hiR.ConnectionState.window
+			ctrs := map[uint64]bool{}
+			for _, p := range append(append([]vpkt{}, direct...), frames...) {
+				var h header.H
+				if h.Parse(p.Data) != nil {
+					t.Fatalf("%s setup: %v", c34CoreMixedRx, p)
+				}
+				owner := a.f.hostMap.QueryIndex(h.RemoteIndex) // a direct packet names the tunnel, a relay frame the relay leg on it
+				if h.Type == header.Message && h.Subtype == header.MessageRelay {
+					owner = a.f.hostMap.QueryRelayIndex(h.RemoteIndex)
+				}
+				if owner != hiR || h.MessageCounter <= win.current {
+					t.Fatalf("%s setup: %v is not a fresh packet of the tunnel to r (window at %d)", c34CoreMixedRx, p, win.current)
+				}
+				ctrs[h.MessageCounter] = true
+			}
+			if len(ctrs) != 3 {
+				t.Fatalf("%s setup: counters %v", c34CoreMixedRx, ctrs)
+			}
+			a.takeOut()
+			a.tun.take()
+			observe := func() {
+				// accepted = the window of the tunnel to r recorded the counter; acted upon = the Test request was answered
+				// and b's inner packets reached the tun
+				recorded := 0
+				for ctr := range ctrs {
+					if ctr <= win.current && win.get(ctr) {
+						recorded++
+					}
+				}
+				if recorded == 3 {
+					c34Count["window_recorded_direct_and_both_relay_frames"]++
+				}
+				replies := 0
+				for _, p := range c34To(a.takeOut(), r.udp) {
+					var h header.H
+					if h.Parse(p.Data) == nil && h.Type == header.Test && h.Subtype == header.TestReply {
+						replies++
+					}
+				}
+				if replies == 1 {
+					c34Count["direct_packet_decrypted_and_answered"]++
+				}
+				inner := 0
+				for _, p := range a.tun.take() {
+					if strings.Contains(string(p), "RELAYED-ONE") || strings.Contains(string(p), "RELAYED-TWO") {
+						inner++
+					}
+				}
+				if inner == 2 {
+					c34Count["both_relay_frames_verified_and_delivered_to_tun"]++
+				}
+				net.close()
+			}
+			return []func(){
+				func() { a.deliverOn(0, r.udp, direct[0].Data) },
+				func() { a.deliverOn(1, r.udp, frames[0].Data) },
+				func() { a.deliverOn(2, r.udp, frames[1].Data) },
+			}, observe
+		}},
+		{c34CoreUpdates, 3, func(t testing.TB, seed int64) ([]func(), func()) {
+			// SEVERAL CALLERS of the lighthouse update. LightHouse.SendUpdate is not owned by one goroutine: the update worker
+			// calls it on every interval tick / TriggerUpdate, Control.RebindUDPServer calls it on its caller's goroutine, and
+			// after a `lighthouse.interval` reload the replaced worker may still be inside it when the replacement worker
+			// sends its first update. Two threads run the real lh.SendUpdate() of a node with two lighthouses and an
+			// established tunnel to each (real SendMessageToVpnAddr -> sendNoMetrics -> header.Encode / EncryptDanger ->
+			// socket write), the third reloads every configuration key that SendUpdate reads (lighthouse.hosts,
+			// advertise_addrs, local_allow_list, interval, relay.relays).
+			a := vnodeSpec{Name: "a", Networks: "10.0.0.1/24", Udp: "192.0.2.1:4242", Overrides: m{
+				"static_host_map": m{"10.0.0.2": []string{"192.0.2.2:4242"}, "10.0.0.3": []string{"192.0.2.3:4242"}},
+				"lighthouse":      m{"hosts": []string{"10.0.0.2", "10.0.0.3"}}}}
+			b := vnodeSpec{Name: "b", Networks: "10.0.0.2/24", Udp: "192.0.2.2:4242", Overrides: m{"lighthouse": m{"am_lighthouse": true}}}
+			cc := vnodeSpec{Name: "c", Networks: "10.0.0.3/24", Udp: "192.0.2.3:4242", Overrides: m{"lighthouse": m{"am_lighthouse": true}}}
+			net := vNewNet(t, seed, a, b, cc)
+			na, nb, nc := net.node("a"), net.node("b"), net.node("c")
+			if !net.establish(na, nb, "s1") || !net.establish(na, nc, "s2") {
+				t.Fatalf("establish")
+			}
+			net.flushFIFO(50)
+			na.takeOut()
+			pk := vGetPKI()
+			leaf := pk.leafFor(na.spec.Name, na.spec.Networks, na.spec.Unsafe, na.spec.Groups, na.spec.Version)
+			cfg := vDefaultConfig(leaf, pk.caPEM, na.udp)
+			cfg["static_host_map"] = m{"10.0.0.2": []string{"192.0.2.2:4242"}, "10.0.0.3": []string{"192.0.2.3:4242"}}
+			cfg["lighthouse"] = m{"hosts": []string{"10.0.0.3"}, "interval": 0, "advertise_addrs": []string{c34NewAdvertise.String()},
+				"local_allow_list": m{"192.0.2.0/24": true}}
+			cfg["relay"] = m{"relays": []string{"10.0.0.9"}}
+			raw, _ := yaml.Marshal(cfg)
+
+			// who wrote what: the socket hook notes the writing goroutine of every datagram (under the socket's own mutex);
+			// every thread notes its own goroutine id in its own slot; both are read by the driver after the join
+			lhUdp := map[netip.AddrPort]*vnode{nb.udp: nb, nc.udp: nc}
+			var writers []uint64
+			na.conn.writeErr = func(to netip.AddrPort) error {
+				if lhUdp[to] != nil {
+					writers = append(writers, c34Gid())
+				}
+				return nil
+			}
+			var gid [3]uint64
+			var reloadErr error
+			observe := func() {
+				na.conn.writeErr = nil
+				var ups []vpkt
+				for _, p := range na.takeOut() {
+					var h header.H
+					if lhUdp[p.To] != nil && h.Parse(p.Data) == nil && h.Type == header.LightHouse {
+						ups = append(ups, p)
+					}
+				}
+				if len(ups) != len(writers) {
+					t.Fatalf("%s: %d lighthouse datagrams on the wire, %d attributed writes", c34CoreUpdates, len(ups), len(writers))
+				}
+				per := [2]int{}
+				for _, g := range writers {
+					for i := 0; i < 2; i++ {
+						if g == gid[i] {
+							per[i]++
+						}
+					}
+				}
+				if per[0] > 0 && per[1] > 0 && per[0]+per[1] == len(writers) {
+					c34Count["every_update_thread_wrote"]++
+				}
+				c34Count["update_datagrams"] += int64(len(ups))
+				c34Count[fmt.Sprintf("schedules_with_%d+%d_datagrams", per[0], per[1])]++
+				if reloadErr == nil {
+					c34Count["lighthouse_reload_applied"]++
+				}
+				// every datagram is an authentic HostUpdateNotification: its lighthouse (cache entry for a dropped first)
+				// learns a's addresses from it; which configuration the update was built from shows in what it learns
+				for _, p := range ups {
+					lhn := lhUdp[p.To]
+					lhn.lh.DeleteVpnAddrs([]netip.Addr{na.vpnIP})
+					lhn.deliver(na.udp, p.Data)
+					lhn.lh.RLock()
+					rl := lhn.lh.addrMap[na.vpnIP]
+					lhn.lh.RUnlock()
+					var learned []netip.AddrPort
+					if rl != nil {
+						learned = rl.CopyAddrs(nil)
+					}
+					switch {
+					case len(learned) == 0:
+						c34Count["updates_rejected_by_lighthouse"]++
+					case slices.Contains(learned, c34NewAdvertise):
+						c34Count["updates_accepted_built_from_reloaded_config"]++
+					default:
+						c34Count["updates_accepted_built_from_old_config"]++
+					}
+				}
+				net.close()
+			}
+			return []func(){
+				func() { gid[0] = c34Gid(); na.lh.SendUpdate() },
+				func() { gid[1] = c34Gid(); na.lh.SendUpdate() },
+				func() { gid[2] = c34Gid(); reloadErr = na.c.ReloadConfigString(string(raw)) },
+			}, observe
+		}},
 	}
 }
 
 const (
 	c34CoreForward   = "relay-forward-vs-peer-tunnel-delete"
 	c34CoreRerequest = "relay-rerequest-vs-handshake-via-relay"
+	c34CoreUpdates   = "two-lighthouse-update-callers-vs-lighthouse-reload"
+	c34CoreMixedRx   = "rx-direct-packet-vs-relay-frames-on-relay-tunnel"
 )
+
+// c34NewAdvertise is the advertise address that only the reloaded configuration of the update core contains.
+var c34NewAdvertise = netip.MustParseAddrPort("198.51.100.7:4242")
+
+// c34Gid returns the id of the calling goroutine (first line of its stack: "goroutine N [running]:").
+func c34Gid() uint64 {
+	var buf [64]byte
+	n := runtime.Stack(buf[:], false)
+	var id uint64
+	for _, ch := range buf[min(len("goroutine "), n):n] {
+		if ch < '0' || ch > '9' {
+			break
+		}
+		id = id*10 + uint64(ch-'0')
+	}
+	return id
+}
 
 // c34Relayed keeps the datagrams whose (unauthenticated) header says "relayed message".
 func c34Relayed(pkts []vpkt) []vpkt {
@@ -456,6 +666,7 @@ type c34Result struct {
 	FirstDeadlock []int16          `json:"first_deadlock"`
 	Sample        []int8           `json:"sample_thread_order"`
 	Counters      map[string]int64 `json:"counters"`
+	Seconds       float64          `json:"seconds"` // wall time of the worker's exploration (diagnostic only)
 }
 
 // TestVerifC34Worker runs one core in this process (spawned by TestVerifC34 with the race log configured).
@@ -512,6 +723,7 @@ func TestVerifC34Worker(t *testing.T) {
 				break
 			}
 		}
+		out.Seconds = realtime.Since(startT).Seconds()
 		b, _ := json.Marshal(out)
 		if err := os.WriteFile(os.Getenv("VERIF_C34_OUT"), b, 0o644); err != nil {
 			t.Fatal(err)
@@ -584,6 +796,10 @@ func TestVerifC34(t *testing.T) {
 	cores := c34Cores()
 	bound := mc.Pick(c, 1, 2)
 	perCore := mc.Pick(c, 35.0, 800.0)
+	if f, err := strconv.ParseFloat(os.Getenv("VERIF_BUDGET_S"), 64); err == nil && f > 0 {
+		// the workers run in two waves of eight: a caller-given soft budget is split between the waves
+		perCore = min(perCore, max(5.0, f*0.45))
+	}
 	dir := filepath.Join("/verif/.build/race", fmt.Sprintf("c34-%d", os.Getpid()))
 	_ = os.RemoveAll(dir)
 	if err := os.MkdirAll(dir, 0o755); err != nil {
@@ -599,11 +815,18 @@ func TestVerifC34(t *testing.T) {
 	outs := make([]outT, len(cores))
 	var wg sync.WaitGroup
 	sem := make(chan struct{}, 8)
-	for i, core := range cores {
+	// launch order: cores with more threads (far more schedules) first, so that the longest workers start in the first wave
+	order := make([]int, len(cores))
+	for i := range order {
+		order[i] = i
+	}
+	sort.SliceStable(order, func(x, y int) bool { return cores[order[x]].threads > cores[order[y]].threads })
+	for _, i := range order {
+		core := cores[i]
 		wg.Add(1)
+		sem <- struct{}{}
 		go func(i int, core c34Core) {
 			defer wg.Done()
-			sem <- struct{}{}
 			defer func() { <-sem }()
 			resPath := filepath.Join(dir, core.name+".json")
 			logBase := filepath.Join(dir, core.name+".race")
@@ -642,7 +865,7 @@ func TestVerifC34(t *testing.T) {
 		points += o.res.ChoicePoints
 		deadlocks += o.res.Deadlocks
 		coreSummary[core.name] = map[string]any{"threads": core.threads, "schedules": o.res.Executions, "choice_points": o.res.ChoicePoints,
-			"by_preemptions": o.res.ByPreemptions, "complete_within_bound": o.res.Complete, "race_reports_in_nebula": len(o.races)}
+			"by_preemptions": o.res.ByPreemptions, "complete_within_bound": o.res.Complete, "race_reports_in_nebula": len(o.races), "worker_seconds": float64(int(o.res.Seconds*10)) / 10}
 		if !o.res.Complete {
 			c.Capped("time budget in core " + core.name)
 		}
@@ -701,6 +924,24 @@ func TestVerifC34(t *testing.T) {
 			c.Require(cnt["rerequest_and_response_sent"] == o.res.Executions, "core %s: re-request and handshake response were both sent in %d of %d schedules", core.name, cnt["rerequest_and_response_sent"], o.res.Executions)
 			relayReaderSchedules += cnt["rerequest_and_response_sent"]
 			relayTransitions += cnt["relay_state_transitions"]
+		case c34CoreMixedRx:
+			// in every schedule the Decrypt path and the VerifyRelay path both accepted their packets on the same window
+			for _, k := range []string{"window_recorded_direct_and_both_relay_frames", "direct_packet_decrypted_and_answered", "both_relay_frames_verified_and_delivered_to_tun"} {
+				c.Require(len(o.races) > 0 || cnt[k] == o.res.Executions, "core %s: %s in %d of %d schedules", core.name, k, cnt[k], o.res.Executions)
+			}
+			c.Set("mixed_direct_and_relayed_rx_schedules", cnt["window_recorded_direct_and_both_relay_frames"])
+		case c34CoreUpdates:
+			// two callers were inside SendUpdate in every schedule and each of them put at least one update on the wire
+			c.Require(cnt["every_update_thread_wrote"] == o.res.Executions, "core %s: both SendUpdate callers wrote a lighthouse datagram in %d of %d schedules", core.name, cnt["every_update_thread_wrote"], o.res.Executions)
+			c.Require(cnt["lighthouse_reload_applied"] == o.res.Executions, "core %s: the lighthouse reload was applied in %d of %d schedules", core.name, cnt["lighthouse_reload_applied"], o.res.Executions)
+			c.Require(!o.res.Complete || cnt["updates_accepted_built_from_old_config"] > 0 && cnt["updates_accepted_built_from_reloaded_config"] > 0, "core %s: updates were built both before and after the reload: %v", core.name, cnt)
+			if len(o.races) == 0 {
+				// (with a race on the send path the datagrams may be garbage; the race is the verdict then)
+				c.Require(cnt["updates_rejected_by_lighthouse"] == 0 && cnt["updates_accepted_built_from_old_config"]+cnt["updates_accepted_built_from_reloaded_config"] == cnt["update_datagrams"],
+					"core %s: every datagram written by SendUpdate is an authentic HostUpdateNotification for its lighthouse: %v", core.name, cnt)
+			}
+			c.Set("concurrent_sendupdate_schedules", cnt["every_update_thread_wrote"])
+			c.Set("concurrent_sendupdate_datagrams", cnt["update_datagrams"])
 		}
 	}
 	c.Set("relay_leg_state_transitions_under_concurrent_readers", relayTransitions)
@@ -713,6 +954,7 @@ func TestVerifC34(t *testing.T) {
 	c.Set("preemption_bound_completed", bound)
 	c.Set("distinct_race_signatures_in_nebula", len(allRaces))
 	c.Set("explanation", "states = complete schedules executed under the race detector; transitions = scheduling choice points; cores = 2-3 thread harnesses on real nodes")
+	c.Assume("the callers of LightHouse.SendUpdate other than the update worker (Control.RebindUDPServer, the replacement worker after a lighthouse.interval reload) are represented by their SendUpdate call; the socket rebind itself is not among the activities the statement lists, so neither RebindUDPServer's own write of Interface.rebindCount nor start states after a rebind (Interface.rebindCount != HostInfo.lastRebindCount, where sendNoMetrics updates lastRebindCount) are explored")
 	c.Assume("coverage is the listed cores x preemption bound; whole-engine load testing with randomized scheduling is a different technique and is not attempted")
 	c.Assume("the scheduler is sequentially consistent; weaker memory-model effects are only caught as far as the race detector reports the missing happens-before edge")
 }
